@@ -265,17 +265,72 @@ def runRestLine (r : Report) (sec : Nat) (l : Line) (gated : Bool) (eng : Option
         if Spec.hasFlush script && atRet = Spec.completeF script && Spec.completes script false then
           r := r.addCover "flush-complete-streamed-result"
       | _, _, _, _ => r := r.mismatch sec l.idx "parsable-observation" impl
-    else if dur > 0 then
-      -- exempt request (websocket upgrade / event stream): the timeout must not touch it
+    else
+      -- exempt request (websocket upgrade / event stream) or TimeoutHandler(duration <= 0) = no timeout: nothing may cut it off
+      let what := if dur > 0 then "exempt request (websocket/event-stream)" else "TimeoutHandler(duration <= 0) is no timeout at all, but the request"
       let expected := (simRest script kind k hdr dur).sret
       let refused : Bool := match parseResults (obsOf l "results") with
         | some (rs, _) => rs.any (· == .errTimeout)
         | none => true
       if refused then
-        r := r.violation sec l.idx s!"exempt request (websocket/event-stream): a Write was refused with ErrHandlerTimeout: op=[{joinSp l.op}] impl=[{impl}]"
+        r := r.violation sec l.idx s!"{what} had a Write refused with ErrHandlerTimeout: op=[{joinSp l.op}] impl=[{impl}]"
       if expected = "blocked" && obsOf l "sret" ≠ "blocked" then
-        r := r.violation sec l.idx s!"exempt request (websocket/event-stream) was cut off by the timeout: op=[{joinSp l.op}] impl=[{impl}]"
+        r := r.violation sec l.idx s!"{what} was cut off by the timeout: op=[{joinSp l.op}] impl=[{impl}]"
     return r
+
+/-! ### two requests in flight together: `pair <same|own> <kindA> <ka> <kindB> <kb> <la> <actA>* / <actB>*`
+
+The model has no state shared between requests (`mstep`: a step of one request leaves the others alone; Props
+`multi_request_independent`), so each half of the line must be explained by the single-request model on its own schedule,
+and the property (`Spec.check`) must hold for each half on its own — whatever the other request did in between. -/
+
+def splitAt (sep : String) (l : List String) : List String × List String :=
+  (l.takeWhile (· ≠ sep), (l.dropWhile (· ≠ sep)).drop 1)
+
+def runPairHalf (r : Report) (sec : Nat) (l : Line) (who other : String) (pfx : String) (script : List Act) (kind : Option Kind) (k : Nat)
+    (lateDuringOther : Bool) : Report := Id.run do
+  let mut r := r
+  let o (key : String) : String := obsOf l (pfx ++ key)
+  let impl := s!"sret={o "sret"} atret={o "atret"} results={o "results"} final={o "final"}"
+  let cands : List RestOut := [simWrapped script kind k false] ++ (if Spec.hasFlush script then [simWrapped script kind k true] else [])
+  match cands.find? (fun c => c.render false = impl) with
+  | some c =>
+    r := r.addCover s!"pair-{who}-{c.branch}"
+    if lateDuringOther && c.branch = "timeout-branch" then
+      r := r.addCover s!"pair-{who}-late-actions-while-{other}-in-flight"
+      if (script.drop k).any (fun a => match a with | .write _ => true | _ => false) then
+        r := r.addCover s!"pair-{who}-late-Write-while-{other}-in-flight"
+      if (script.drop k).any (fun a => match a with | .setHeader _ _ => true | .writeHeader _ => true | _ => false) then
+        r := r.addCover s!"pair-{who}-late-header-or-status-while-{other}-in-flight"
+      if (script.drop k).any (fun a => a == .flush) then r := r.addCover s!"pair-{who}-late-Flush-while-{other}-in-flight"
+  | none =>
+    r := r.mismatch sec l.idx (s!"{who}: " ++ (match cands.head? with | some c => c.render false | none => "?")) (s!"{who}: " ++ impl)
+  match parseSRet (o "sret"), parseView (o "atret"), parseView (o "final"), parseResults (o "results") with
+  | some sret, some atRet, some final, some (results, _) =>
+    let ob : Spec.Obs := { script := script, kind := kind, firedLo := (match kind with | some _ => k | none => script.length + 1),
+                           firedHi := (match kind with | some _ => k | none => script.length + 1), gated := true,
+                           sret := sret, atRet := atRet, final := final, results := results }
+    for e in Spec.check reasonBytes ob do
+      r := r.violation sec l.idx s!"{e} [request {who} of two requests in flight together; the other one is {other}]: op=[{joinSp l.op}] impl=[{joinSp l.obs}]"
+      if e.startsWith "[known-class " then r := r.addCover ("known-" ++ (((e.splitOn "]").headD "").splitOn " ").getLastD "")
+  | _, _, _, _ => r := r.mismatch sec l.idx "parsable-observation" (joinSp l.obs)
+  return r
+
+def runPairLine (r : Report) (sec : Nat) (l : Line) : Report :=
+  match l.op with
+  | "pair" :: inst :: kindA :: ka :: kindB :: kb :: la :: rest =>
+    let (ta, tb) := splitAt "/" rest
+    match parseKind kindA, ka.toNat?, parseKind kindB, kb.toNat?, la.toNat?, parseActs ta, parseActs tb with
+    | some kA, some a, some kB, some b, some late, some sa, some sb =>
+      if (inst ≠ "same" && inst ≠ "own") || kindA = "timer" || kindB = "timer" then r.mismatch sec l.idx "bad-op" (joinSp l.op) else
+      let r := r.addCover s!"pair-{inst}-instance" |>.addCover s!"pair-A-{kindA}-B-{kindB}"
+      let r := runPairHalf r sec l "A" "B" "a" sa kA a (late > 0)
+      let r := runPairHalf r sec l "B" "A" "b" sb kB b false
+      if obsOf l "leak" ≠ "0" then
+        r.violation sec l.idx s!"a goroutine of the wrapper is left behind after both requests and their work have ended (leak): op=[{joinSp l.op}] impl=[{joinSp l.obs}]"
+      else r
+    | _, _, _, _, _, _, _ => r.mismatch sec l.idx "bad-op" (joinSp l.op)
+  | _ => r.mismatch sec l.idx "bad-op" (joinSp l.op)
 
 def runDlLine (r : Report) (sec : Nat) (l : Line) : Report :=
   match l.op with
@@ -288,7 +343,10 @@ def runDlLine (r : Report) (sec : Nat) (l : Line) : Report :=
       let r := r.addCover ("rest-" ++ m ++ (if restWraps (dur * 1000000) h then "-wrapped" else "-unwrapped"))
       let r := if m ≠ impl then r.mismatch sec l.idx m impl else r
       -- monitor: deadline no later than the caller's and no later than now + timeout
-      if impl = "dl=late" ∨ (restWraps (dur * 1000000) h ∧ impl = "dl=none") ∨ (parent.isSome ∧ impl = "dl=none") then
+      let parentLater : Bool := match parent with | some p => decide (p > dur + 4000) | none => false
+      let r := if restWraps (dur * 1000000) h && parentLater then r.addCover "rest-dl-caller-deadline-later-than-timeout" else r
+      if impl = "dl=late" ∨ (restWraps (dur * 1000000) h ∧ impl = "dl=none") ∨ (parent.isSome ∧ impl = "dl=none")
+          ∨ (restWraps (dur * 1000000) h ∧ parentLater ∧ impl = "dl=parent") then
         r.violation sec l.idx s!"deadline seen by the work is later than min(caller's deadline, now+timeout): op=[{joinSp l.op}] impl=[{impl}]"
       else r
     | _, _, _ => r.mismatch sec l.idx "bad-op" (joinSp l.op)
@@ -413,6 +471,28 @@ def runSelRaceLine (r : Report) (sec : Nat) (l : Line) : Report :=
         (Spec.checkSel work (some k) o').foldl (fun r e => r.violation sec l.idx s!"{e}: op=[{joinSp l.op}] impl=[{joinSp l.obs}]") r
       | none => r.violation sec l.idx s!"outcome is neither the work's result nor a timeout result: op=[{joinSp l.op}] impl=[{joinSp l.obs}]"
     | _, _, _ => r.mismatch sec l.idx "bad-op" (joinSp l.op)
+  | _ => r.mismatch sec l.idx "bad-op" (joinSp l.op)
+
+/-- `pairsel <kindA> <workA> <kindB> <atB> <workB>` => `aout=… afin=… out=… [then=…]`: two calls through one interceptor; the
+model has no state between calls (`SrvInst.call` returns the closure unchanged; each call has its own `SelSt`), so A must
+be the timeout result of ITS expiry and B must be explained — and satisfy the outcome law — on its own. -/
+def runPairSelLine (r : Report) (sec : Nat) (l : Line) : Report :=
+  match l.op with
+  | ["pairsel", kindA, workA, kindB, atB, workB] =>
+    match parseKind kindA, parseWork workA with
+    | some (some kA), some wA =>
+      let aModel := outStr (mainTakesTimeout srvStep { work := wA } kA)
+      let aImpl := obsOf l "aout"
+      let r := r.addCover s!"pairsel-A-late-{(workA.splitOn ":").headD ""}-while-B-in-flight"
+      let r := if aModel ≠ aImpl then r.mismatch sec l.idx s!"aout={aModel}" s!"aout={aImpl}" else r
+      let r := if obsOf l "afin" ≠ "1" then r.mismatch sec l.idx "afin=1" (joinSp l.obs) else r
+      let r := match parseOutcome aImpl with
+        | some o => (Spec.checkSel wA (some kA) o).foldl (fun r e =>
+            r.violation sec l.idx s!"{e} [call A of two calls through one interceptor]: op=[{joinSp l.op}] impl=[{joinSp l.obs}]") r
+        | none => r.violation sec l.idx s!"wrapper did not return at the deadline while the work ignored it [call A of two calls through one interceptor]: op=[{joinSp l.op}] impl=[{joinSp l.obs}]"
+      let lB : Line := { l with obs := l.obs.filter (fun t => !(t.startsWith "aout=" || t.startsWith "afin=")) }
+      runSelLineOp r sec lB ["sel", "srv", kindB, atB, workB] "pairsel-B"
+    | _, _ => r.mismatch sec l.idx "bad-op" (joinSp l.op)
   | _ => r.mismatch sec l.idx "bad-op" (joinSp l.op)
 
 def msInt (s : String) : Option Int := s.toInt?
@@ -628,6 +708,71 @@ def runCliOptLine (r : Report) (sec : Nat) (l : Line) : Report :=
     | none => r.mismatch sec l.idx "bad-op" (joinSp l.op)
   | _ => r.mismatch sec l.idx "bad-op" (joinSp l.op)
 
+/-! ### zrpc configuration glue, run on the real code (sections `wrapper=glue`)
+
+`gsrv <confMs> <method> <parentMs|none> <m:ms>*`  => `dl=… n=<interceptors installed>`   (zrpc/server.go setupUnaryInterceptors)
+`gcli <on|off> <confMs> <parentMs|none> <u:ms|c:ms|o>*` => `dl=… err=ok`  (zrpc.NewClient → internal.NewClient →
+buildDialOptions → buildUnaryInterceptors → TimeoutInterceptor, over an in-memory grpc connection) -/
+
+def parseGcliOpts (toks : List String) : Option (List Int × List (Option Int)) :=
+  toks.foldlM (fun (acc : List Int × List (Option Int)) o =>
+    if o = "o" then some (acc.1, acc.2 ++ [none]) else
+    match o.splitOn ":" with
+    | ["u", b] => b.toInt?.map (fun v => (acc.1 ++ [msI v], acc.2))
+    | ["c", b] => b.toInt?.map (fun v => (acc.1, acc.2 ++ [some (msI v)]))
+    | _ => none) ([], [])
+
+def runGlueLine (r : Report) (sec : Nat) (l : Line) : Report :=
+  match l.op with
+  | "gsrv" :: conf :: method :: p :: mts =>
+    match conf.toInt?, method.toNat?, parseParent p, parseMts mts with
+    | some c, some m, some parent, some tbl =>
+      let parent' := parent.map msI
+      let wired := decide (c > 0)
+      let t := srvTimeout (msI c) tbl m
+      let dl := srvWiredDeadline c tbl m parent' 0
+      let model := s!"dl={dlClassT parent' dl (t / 1000000)} n={if wired then 1 else 0}"
+      let impl := joinSp l.obs
+      let r := r.addCover (if !wired then "glue-srv-conf-timeout<=0-no-interceptor" else if t = msI c then "glue-srv-default-timeout" else "glue-srv-method-timeout")
+      let r := if wired && t ≤ 0 then r.addCover "glue-srv-method-timeout<=0-born-expired" else r
+      let r := match parent with
+        | some pm => if wired && msI pm < t then r.addCover "glue-srv-caller-earlier" else if wired then r.addCover "glue-srv-caller-later" else r
+        | none => r
+      let r := if model ≠ impl then r.mismatch sec l.idx model impl else r
+      let r := if wired && obsOf l "n" = "0" then
+        r.violation sec l.idx s!"RpcServerConf.Timeout > 0 but no timeout interceptor is installed: the work runs without the deadline: op=[{joinSp l.op}] impl=[{impl}]"
+      else r
+      if wired && dlViolates (obsOf l "dl") parent true (t / 1000000) then
+        r.violation sec l.idx s!"deadline seen by the work is later than min(caller's deadline, now+timeout) of its own method as configured (RpcServerConf.Timeout ms / MethodTimeouts through setupUnaryInterceptors): op=[{joinSp l.op}] impl=[{impl}]"
+      else r
+    | _, _, _, _ => r.mismatch sec l.idx "bad-op" (joinSp l.op)
+  | "gcli" :: mw :: conf :: p :: opts =>
+    match conf.toInt?, parseParent p, parseGcliOpts opts with
+    | some c, some parent, some (users, callOpts) =>
+      if mw ≠ "on" && mw ≠ "off" then r.mismatch sec l.idx "bad-op" (joinSp l.op) else
+      let on := mw = "on"
+      let parent' := parent.map msI
+      let t := cliTimeout (cliConfTimeout c users) callOpts
+      let dl := cliWiredDeadline on c users callOpts parent' 0
+      let model := s!"dl={dlClassT parent' dl (t / 1000000)} err=ok"
+      let impl := joinSp l.obs
+      let specT := Spec.clientTimeout c users callOpts
+      let wraps := on && decide (specT > 0)
+      let r := r.addCover (if !on then "glue-cli-middleware-off" else if !wraps then "glue-cli-pass-through"
+        else if callOpts.any (·.isSome) then "glue-cli-call-option" else if !users.isEmpty then "glue-cli-WithTimeout-option" else "glue-cli-conf-timeout")
+      let r := if users.length > 1 then r.addCover "glue-cli-several-WithTimeout-last-wins" else r
+      let r := if on && !users.isEmpty && c > 0 then r.addCover "glue-cli-WithTimeout-overrides-conf" else r
+      let r := if on && users.getLast?.any (· ≤ 0) && !callOpts.any (·.isSome) then r.addCover "glue-cli-WithTimeout<=0-disables" else r
+      let r := match parent with
+        | some pm => if wraps && msI pm < specT then r.addCover "glue-cli-caller-earlier" else if wraps then r.addCover "glue-cli-caller-later" else r
+        | none => r
+      let r := if model ≠ impl then r.mismatch sec l.idx model impl else r
+      if dlViolates (obsOf l "dl") parent wraps (specT / 1000000) then
+        r.violation sec l.idx s!"deadline that travels with the call is later than min(caller's deadline, now+effective timeout) as configured (first WithCallTimeout, else last zrpc.WithTimeout, else RpcClientConf.Timeout) through NewClient / buildDialOptions / buildUnaryInterceptors: op=[{joinSp l.op}] impl=[{impl}]"
+      else r
+    | _, _, _ => r.mismatch sec l.idx "bad-op" (joinSp l.op)
+  | _ => r.mismatch sec l.idx "bad-op" (joinSp l.op)
+
 /-! ### Hijack lines: `hij <sup|nosup> <kind> <before|after>` => `hijack=<ok|refused|unsupported>` -/
 
 def showHij : HijRes → String
@@ -716,6 +861,7 @@ def runEngLine (r : Report) (sec : Nat) (l : Line) (es : EngSec) : Report :=
         let wraps := restWraps dur h
         let others := (es.groups.zipIdx.filter (fun p => p.2 ≠ gi)).map (fun p => groupTimeout p.1)
         let r := r.addCover ("eng-group-" ++ groupClass opts)
+        let r := if gi % 3 = 2 then r.addCover ("eng-route-through-AddRoute-" ++ groupClass opts) else r
         let r := r.addCover ("eng-" ++ (model.splitOn "@").headD "" ++ (if wraps then "-wrapped" else "-unwrapped"))
         let r := if es.eng.mw ≠ .on then r.addCover "eng-middleware-off-or-custom-chain" else r
         let r := if wraps && own ≤ 0 && others.any (fun t => t > ms es.global) then r.addCover "eng-global-next-to-longer-route" else r
@@ -749,6 +895,8 @@ def runSection (r : Report) (s : Section) : Report :=
     | some "fxt" => runFxtLine r s.idx l
     | some "gt" | some "wct" => runCliOptLine r s.idx l
     | some "hij" => runHijLine r s.idx l
+    | some "pair" => runPairLine r s.idx l
+    | some "gsrv" | some "gcli" => runGlueLine r s.idx l
     | some "edl" | some "emax" =>
       (match parseEng s.cfg with
         | some es => runEngLine r s.idx l es
@@ -759,6 +907,7 @@ def runSection (r : Report) (s : Section) : Report :=
         | none => r.mismatch s.idx l.idx "bad-cfg" (joinSp s.cfg))
     | some "sel" => runSelLine r s.idx l
     | some "selrace" => runSelRaceLine r s.idx l
+    | some "pairsel" => runPairSelLine r s.idx l
     | _ => r.mismatch s.idx l.idx "bad-op" (joinSp l.op)) r
 
 def driver (secs : List Section) : Report := secs.foldl runSection {}
